@@ -1,16 +1,16 @@
 #!/bin/bash
 # run_benign.sh — applies each property-preserving change of /verif/benign in a scratch worktree and runs the
-# checks named in its first line comment; every check must exit 0 (no alarm on code where the property holds).
+# checks listed in benign/<name>.checks; every check must exit 0 (no alarm on code where the property holds).
 cd /verif
 export GOFLAGS=-mod=mod GOPROXY=off GOSUMDB=off GOTOOLCHAIN=local
-declare -A CHECKS=( [b1-counter-refactor]="C03 C04 C05 C10" [b2-upload-sorted-weeks]="C01 C02 C07 C08" [b3-upload-early-marker-check]="C07 C08 C02" [b4-parse-messages-server-status]="C06 C12 C11" )
-for f in benign/*.diff; do
+list="$@"; [ -z "$list" ] && list=$(ls benign/*.diff)
+for f in $list; do
   n=$(basename $f .diff)
   wt=$(mktemp -d /tmp/benrun.XXXX); bd=$(mktemp -d /tmp/benbuild.XXXX)
   git -C /repo worktree add -q --detach "$wt" HEAD
-  git -C "$wt" apply /verif/$f || { echo "$n: PATCH-DOES-NOT-APPLY"; git -C /repo worktree remove --force "$wt"; continue; }
+  git -C "$wt" apply /verif/$f 2>/dev/null || git -C "$wt" apply -3 /verif/$f || { echo "$n: PATCH-DOES-NOT-APPLY"; git -C /repo worktree remove --force "$wt"; continue; }
   res=""
-  for c in ${CHECKS[$n]}; do
+  for c in $(cat benign/$n.checks); do
     out=$(VERIF_REPO=$wt VERIF_BUILD=$bd ${VCHECK:-/verif/bin/vcheck} $c quick 2>&1); code=$?
     res="$res $c:exit=$code"
     [ $code != 0 ] && echo "$out" | grep -E "sig:|vcheck:" | head -3
